@@ -21,6 +21,7 @@ import (
 	"reflect"
 	"runtime"
 	"runtime/debug"
+	"sort"
 	"strings"
 	"unsafe"
 
@@ -531,11 +532,38 @@ func ojWriter() *kind {
 		op{name: "JSON(v,wr):array", class: "config", run: func(i any) result {
 			return guard(func() result { s := oj.JSON(writeValues()[2].v, W(i)); return result{text: s, watch: []any{s}} })
 		}},
-		op{name: "set:Indent=2,Sort", class: "config", run: func(i any) result { W(i).Indent, W(i).Sort = 2, true; return result{text: "ok"} }},
+		// one option at a time (what a writer derives from its options must follow each of them)
+		op{name: "set:Sort", class: "config", run: func(i any) result { W(i).Sort = true; return result{text: "ok"} }},
+		op{name: "set:Indent=2", class: "config", run: func(i any) result { W(i).Indent = 2; return result{text: "ok"} }},
+		op{name: "set:Tab", class: "config", run: func(i any) result { W(i).Tab = true; return result{text: "ok"} }},
 		op{name: "set:Indent=0,OmitNil", class: "config", run: func(i any) result { W(i).Indent, W(i).OmitNil = 0, true; return result{text: "ok"} }},
 		op{name: "set:WriteLimit=8", class: "config", run: func(i any) result { W(i).WriteLimit = 8; return result{text: "ok"} }},
+		// an object with two members: its text is fixed only when Sort is set (otherwise the members are compared as a set)
+		op{name: "JSON:two-members", class: "write", run: func(i any) result {
+			return guard(func() result { return result{text: membersText(W(i).JSON(twoMembers()), W(i).Sort)} })
+		}},
+		op{name: "Write:two-members", class: "write", run: func(i any) result {
+			return guard(func() result {
+				var b bytes.Buffer
+				err := W(i).Write(&b, twoMembers())
+				return result{text: membersText(b.String(), W(i).Sort) + " / " + errText(err), abort: err != nil}
+			})
+		}},
 	)
 	return k
+}
+
+func twoMembers() any { return map[string]any{"b": 1, "a": []any{map[string]any{"d": true, "c": nil}}} }
+
+// membersText is the text itself when the writer sorts, else the text with its
+// lines and members put in order (map order is not fixed without Sort).
+func membersText(s string, sorted bool) string {
+	if sorted {
+		return s
+	}
+	b := []byte(s)
+	sort.Slice(b, func(i, j int) bool { return b[i] < b[j] })
+	return "unsorted:" + string(b)
 }
 
 func senWriter() *kind {
@@ -573,9 +601,21 @@ func senWriter() *kind {
 		op{name: "String(v,wr):array", class: "config", run: func(i any) result {
 			return guard(func() result { s := sen.String(writeValues()[2].v, W(i)); return result{text: s, watch: []any{s}} })
 		}},
-		op{name: "set:Indent=2,Sort", class: "config", run: func(i any) result { W(i).Indent, W(i).Sort = 2, true; return result{text: "ok"} }},
+		op{name: "set:Sort", class: "config", run: func(i any) result { W(i).Sort = true; return result{text: "ok"} }},
+		op{name: "set:Indent=2", class: "config", run: func(i any) result { W(i).Indent = 2; return result{text: "ok"} }},
+		op{name: "set:Tab", class: "config", run: func(i any) result { W(i).Tab = true; return result{text: "ok"} }},
 		op{name: "set:Indent=0,OmitNil", class: "config", run: func(i any) result { W(i).Indent, W(i).OmitNil = 0, true; return result{text: "ok"} }},
 		op{name: "set:WriteLimit=8", class: "config", run: func(i any) result { W(i).WriteLimit = 8; return result{text: "ok"} }},
+		op{name: "SEN:two-members", class: "write", run: func(i any) result {
+			return guard(func() result { return result{text: membersText(W(i).SEN(twoMembers()), W(i).Sort)} })
+		}},
+		op{name: "Write:two-members", class: "write", run: func(i any) result {
+			return guard(func() result {
+				var b bytes.Buffer
+				err := W(i).Write(&b, twoMembers())
+				return result{text: membersText(b.String(), W(i).Sort) + " / " + errText(err), abort: err != nil}
+			})
+		}},
 	)
 	return k
 }
